@@ -1,5 +1,5 @@
 CHECKS = [
-    entry("C36", "collector", level="fault_enumeration",
+    entry("C36", "collector", level="fault_enumeration", crashcap=True,
           technique="property-based testing (rapid): generated ingestion histories with Stop injected at generated crash points, real collector in a testing/synctest bubble (goroutine-leak detector)",
           quick=dict(checks=700, budget_s=70),
           thorough=dict(checks=8000, shards=16, budget_s=540),
